@@ -198,6 +198,9 @@ def primitives(S):
             self.count -= 1
             if self.count <= 0:
                 self.owner, self.count = None, 0
+                # leaving a critical section is a scheduling point too: what a thread reads next without the lock
+                # (queue.unfinished_tasks in join()) may be changed by another thread first
+                S.point("lock.release")
 
         def __enter__(self):
             self.acquire()
@@ -378,7 +381,7 @@ def programs(max_threads):
              "queued-stop-restart-dependent"]
     if max_threads >= 2:
         progs.insert(3, "dependent")
-    return progs
+    return progs + ["stop-vs-enqueue", "stop-vs-join"]
 
 
 def _one(tp, program, max_threads, min_threads, prefix, bound):
@@ -478,6 +481,21 @@ def _one(tp, program, max_threads, min_threads, prefix, bound):
             expect(fb, "b")
             expect(pool.enqueue(T("c")), "c")
             stop(pool)
+        elif program in ("stop-vs-enqueue", "stop-vs-join"):
+            # C11: stop() returns under every interleaving with an enqueue / a join made by another client thread
+            pool.start()
+            expect(pool.enqueue(T("a")), "a")
+            over = th.Event()
+
+            def other():
+                if program == "stop-vs-enqueue":
+                    pool.enqueue(T("b"))
+                else:
+                    pool.join(5)
+                over.set()
+            S.spawn(other)
+            stop(pool)
+            over.wait()
         elif program == "stop-with-queued":
             pool.start()
             gate = th.Event()
@@ -508,9 +526,12 @@ def _one(tp, program, max_threads, min_threads, prefix, bound):
     def stop(pool):
         pool.stop()
         probe.stopped = True
+        # "every worker thread terminates on its own": a worker that has left the pool's accounting may still be on its
+        # way out when stop() returns; it gets (virtual) time to finish, must not start a task meanwhile, and must be gone then
+        th.Event().wait(1)
         alive = [t for t, o in S.objs.items() if o is not None and S.state[t][0] != "done"]
         if alive:
-            problems.append("stop() returned while %d worker(s) are still alive" % len(alive))
+            problems.append("%d worker(s) still alive some time after stop() has returned" % len(alive))
 
     saved = (tp.threading, tp.queue)
     tp.threading, tp.queue = th, qu
